@@ -311,7 +311,7 @@ def run_transform_case(sname, cfg, pname, seed, tier, res=None, only=None):
         if res is not None:
             bump(res["skipped"], "cannot-construct/forward (other properties): %s" % type(e).__name__)
         return vio
-    wide = s.kind == "elementwise" and "shape" in s.axes and cs is None
+    wide = s.kind == "elementwise" and "shape" in s.axes and cs is None and len(shape) >= 1
     xw = torch.cat([x1, 0.5 * x1], dim=1) if wide else None
     jobs = [(only["train"], only["kind"], tuple(only["hist"]))] if only else [(tr, k, h) for tr in (False, True) for k in KINDS for h in histories(T_OPS_WIDE if wide else T_OPS, depth)]
     if only and not only["train"]:
